@@ -1,5 +1,5 @@
 CONSTANTS DSpan = 12
-          NDay = 14
+          NDay = 7
           MJMax = 13
           MYears = {2000}
 SPECIFICATION Spec
